@@ -178,8 +178,12 @@ def rule_nobody_iterates_schema(ctx, rid="R10.3"):
         if calls.param_with_role(disp, "schema") else []
     walkers = set()
     if not disp_own:
+        helpers = calls.with_private_helpers({disp}) - {disp}
         for g in calls.successors(disp):
-            if g.cls is None and all(c is disp or g not in calls.successors(c) for c in prog.funcs.values() if c is not g):
+            # a plain function or a closure that only the dispatcher calls (its definer does not count as a caller)
+            called_by = {c for c in prog.funcs.values() if c is not g and any(
+                any(t.kind == "func" and t.func is g for t in tg) for (_n, _c, tg) in calls.calls_in(c))}
+            if g.cls is None and (g in helpers or called_by <= {disp}):
                 walkers.add(g)
     for f in sorted(reach, key=lambda x: x.qual):
         sp = calls.param_with_role(f, "schema")
